@@ -378,7 +378,7 @@ def generate():
                 "Definition ff_supplied_jacobian := \"%s\".\n"
                 % (record(FIELDS_J, F), record(FIELDS_H, F), record(FIELDS_F, F), ";".join(evaluators),
                    coq_bool(any("grad_jacobian" in e for e in evaluators)), jtj_path, hess_path, ffjac))
-    except Unsupported as u:
+    except (Unsupported, ValueError, TypeError, IndexError, KeyError, AttributeError, AssertionError, RecursionError) as u:   # any surprise in the source = fail closed
         # the intended model, so that the correspondence still says where the code departs from it
         return (failed("CurvGen", str(u)) + HEAD +
                 "Definition code_jfacts : jfacts := good_jfacts.\nDefinition code_hfacts : hfacts := good_hfacts.\n"
